@@ -178,8 +178,24 @@ func (s *Session) runPolicy(sc *Scenario, stepNo *int) int {
 			}
 		}
 	}
+	parkFired := false
 	for ; n < max; n++ {
 		fire(n, false)
+		// At == -2: as soon as a goroutine is held at a gate
+		if !parkFired && len(s.parkedList()) > 0 {
+			for i, f := range p.Faults {
+				if !fired[i] && f.At == -2 {
+					parkFired = true
+					fired[i] = true
+					s.step(*stepNo, f.Step)
+					*stepNo++
+					if len(sc.Late) > 0 {
+						sc.RPCs = append(append([]RPCScript(nil), sc.RPCs...), sc.Late...)
+						sc.Late = nil
+					}
+				}
+			}
+		}
 		ops, dels := s.candidates(sc, pos)
 		var all []cand
 		all = order(p.Kind, ops, dels)
